@@ -667,11 +667,19 @@ def loop_var(head, begin_rx, end_rx, end_names):
     parts = [p.strip() for p in head.split(";")]
     if len(parts) != 3:
         raise TranslateError("for head not understood: %r" % head)
-    m = re.match(r"^(?:const\s+)?[\w:<>]+\s+(\w+)\s*=\s*(?:%s)$" % begin_rx, parts[0])
+    decls = [t.strip() for t in split_params(parts[0])]
+    m = re.match(r"^(?:const\s+)?[\w:<>]+\s+(\w+)\s*=\s*(?:%s)$" % begin_rx, decls[0]) if decls else None
     if not m:
         raise TranslateError("loop initialisation not understood: %r" % parts[0])
     x = m.group(1)
-    m = re.match(r"^%s\s*!=\s*(.+)$" % x, parts[1])
+    end_names = set(end_names)
+    for t in decls[1:]:      # `iterator pair = begin(), last = end()`
+        m = re.match(r"^(\w+)\s*=\s*(?:%s)$" % end_rx, t)
+        if not m or m.group(1) == x:
+            raise TranslateError("loop initialisation not understood: %r" % parts[0])
+        end_names.add(m.group(1))
+    m = (re.match(r"^%s\s*!=\s*(.+)$" % x, parts[1]) or re.match(r"^(.+?)\s*!=\s*%s$" % x, parts[1])
+         or re.match(r"^!\s*\(\s*%s\s*==\s*(.+?)\s*\)$" % x, parts[1]) or re.match(r"^!\s*\(\s*(.+?)\s*==\s*%s\s*\)$" % x, parts[1]))
     if not m:
         raise TranslateError("loop condition not understood: %r" % parts[1])
     e = m.group(1).strip()
@@ -685,63 +693,134 @@ def loop_var(head, begin_rx, end_rx, end_names):
     return x, r"(?:\b%s\s*->|\(\s*\*\s*%s\s*\)\s*\.)" % (x, x), others
 
 
+INC_STMT = re.compile(r"^(?:\+\+\s*(\w+)|(\w+)\s*\+\+|(\w+)\s*\+=\s*(\d+)|(\w+)\s*=\s*(\w+)\s*\+\s*(\d+))$")
+
+
+def inc_of(t):
+    """`++c`, `c++`, `c += k`, `c = c + k` -> (c, k) | None"""
+    m = INC_STMT.match(t.strip())
+    if not m:
+        return None
+    if m.group(1) or m.group(2):
+        return (m.group(1) or m.group(2)), 1
+    if m.group(3):
+        return m.group(3), int(m.group(4))
+    if m.group(5) == m.group(6):
+        return m.group(5), int(m.group(7))
+    return None
+
+
+def while_as_for(st, iters):
+    """`while(x != e) { …; ++x; }` over an iterator x declared in front of it -> the text of the equivalent for statement.
+    (`continue` is not a statement the callers understand, so the increment cannot be skipped.)"""
+    i = st.index("(")
+    j = match_close(st, i, "(", ")")
+    cond = st[i + 1:j].strip()
+    xs = [x for x in iters if re.search(r"\b%s\b" % x, cond)]
+    if len(xs) != 1:
+        raise TranslateError("while condition not understood: %r" % cond)
+    x = xs[0]
+    rest = st[j + 1:].strip()
+    if not rest.startswith("{") or match_close(rest, 0, "{", "}") != len(rest) - 1:
+        raise TranslateError("while body not understood")
+    inner = split_statements(rest[1:-1])
+    if not inner or not re.match(r"^(?:\+\+\s*%s|%s\s*\+\+)$" % (x, x), inner[-1]):
+        raise TranslateError("the iterator is not advanced at the end of the while body")
+    return "for(auto %s = %s; %s; ++%s) { %s }" % (x, iters[x], cond, x, " ".join(q + ";" for q in inner[:-1]))
+
+
 def renumber_of(body):
+    """-> Renum {start, step, value}: the entries are visited in order, entry number n gets `value` evaluated at
+    index = start + n*step.  Understood: for / range-for / while over begin()..end(), an index loop over
+    localIndices_[0 .. size()), the counter advanced in the loop head, in the body (before or behind the assignment) or
+    inside the assigned expression."""
     sts = split_statements(body)
-    end_names, counters, loop = set(), {}, None
+    end_names, size_names, counters, iters, loop = set(), set(), {}, {}, None
+    SIZE = r"(?:localIndices_\s*\.\s*size\s*\(\s*\)|(?:this\s*->\s*)?size\s*\(\s*\))"
     for st in sts:
         if is_state_check(st):
             continue
-        m = re.match(r"^(?:const\s+)?[\w:<>]+\s+(\w+)\s*=\s*(?:this\s*->\s*)?end\s*\(\s*\)$", st)
-        if m and loop is None:
-            end_names.add(m.group(1))
-            continue
-        m = re.match(r"^(?:std\s*::\s*)?[\w]+\s+(\w+)\s*(?:=\s*(\d+)|\(\s*(\d+)\s*\)|\{\s*(\d+)\s*\})$", st)
-        if m and loop is None:
-            counters[m.group(1)] = int(next(g for g in m.groups()[1:] if g is not None))
-            continue
-        if st.startswith("for") and loop is None:
-            loop = st
-            continue
+        if loop is None:
+            m = re.match(r"^(?:const\s+)?[\w:<>]+\s+(\w+)\s*=\s*(?:this\s*->\s*)?end\s*\(\s*\)$", st)
+            if m:
+                end_names.add(m.group(1))
+                continue
+            m = re.match(r"^(?:const\s+)?[\w:<>]+\s+(\w+)\s*=\s*((?:this\s*->\s*)?begin\s*\(\s*\))$", st)
+            if m:
+                iters[m.group(1)] = m.group(2)
+                continue
+            m = re.match(r"^const\s+[\w:<>]+\s+(\w+)\s*=\s*%s$" % SIZE, st)
+            if m:
+                size_names.add(m.group(1))
+                continue
+            m = re.match(r"^(?:std\s*::\s*)?[\w]+\s+(\w+)\s*(?:=\s*(\d+)|\(\s*(\d+)\s*\)|\{\s*(\d+)\s*\})$", st)
+            if m:
+                counters[m.group(1)] = int(next(g for g in m.groups()[1:] if g is not None))
+                continue
+            if st.startswith("for"):
+                loop = st
+                continue
+            if st.startswith("while"):
+                loop = while_as_for(st, iters)
+                continue
         raise TranslateError("statement not understood: %r" % st[:50])
     if loop is None:
         raise TranslateError("no loop")
     head, inner = for_parts(loop)
-    x, elem, others = loop_var(head, r"(?:this\s*->\s*)?begin\s*\(\s*\)", r"(?:this\s*->\s*)?end\s*\(\s*\)", end_names)
-    step, ctr = None, None
-    for t in others:
-        m = re.match(r"^(?:\+\+\s*(\w+)|(\w+)\s*\+\+)$", t)
-        m2 = re.match(r"^(\w+)\s*\+=\s*(\d+)$", t)
-        if m:
-            ctr, step = (m.group(1) or m.group(2)), 1
-        elif m2:
-            ctr, step = m2.group(1), int(m2.group(2))
-        else:
-            raise TranslateError("increment not understood: %r" % t)
-    if len(others) > 1:
-        raise TranslateError("several counters")
-    if len(inner) == 2 and ctr is None:  # { pair->local() = index; ++index; }
-        m = re.match(r"^(?:\+\+\s*(\w+)|(\w+)\s*\+\+)$", inner[1])
-        if not m:
-            raise TranslateError("loop body not understood")
-        ctr, step = (m.group(1) or m.group(2)), 1
-        inner = inner[:1]
-    if len(inner) != 1:
-        raise TranslateError("loop body has %d statements" % len(inner))
-    m = re.match(r"^%s\s*local\s*\(\s*\)\s*=\s*(.+)$" % elem, inner[0])
-    if not m:
-        raise TranslateError("assignment not understood: %r" % inner[0][:50])
-    val = m.group(1)
+    ctr, pre, post = None, 0, 0
+    mi = re.match(r"^(?:const\s+)?[\w:<>]+\s+(\w+)\s*(?:=\s*(\d+)|\{\s*(\d+)\s*\}|\(\s*(\d+)\s*\))\s*;(.+);(.+)$", head)
+    if mi:     # index loop: for(T i = 0; i < size(); ++i) localIndices_[i].local() = …
+        x = mi.group(1)
+        start = int(next(g for g in mi.groups()[1:4] if g is not None))
+        c = mi.group(5).strip()
+        szs = "(?:%s%s)" % (SIZE, "".join("|" + n for n in sorted(size_names)))
+        if not re.match(r"^(?:%s\s*(?:<|!=)\s*%s|%s\s*(?:>|!=)\s*%s)$" % (x, szs, szs, x), c):
+            raise TranslateError("loop condition not understood: %r" % c)
+        if inc_of(mi.group(6)) != (x, 1) or start != 0:
+            raise TranslateError("index loop does not visit every entry from the first one")
+        elem = r"(?:localIndices_\s*\[\s*%s\s*\]\s*\.|(?:this\s*->\s*)?begin\s*\(\s*\)\s*\[\s*%s\s*\]\s*\.)" % (x, x)
+        counters = {x: 0}
+        ctr, post, fixed = x, 1, True
+    else:
+        x, elem, others = loop_var(head, r"(?:this\s*->\s*)?begin\s*\(\s*\)", r"(?:this\s*->\s*)?end\s*\(\s*\)", end_names)
+        fixed = False
+        for t in others:
+            ik = inc_of(t)
+            if not ik or (ctr is not None and ctr != ik[0]):
+                raise TranslateError("increment not understood: %r" % t)
+            ctr, post = ik[0], post + ik[1]
+    val = None
+    for q in inner:
+        ik = inc_of(q)
+        if ik:
+            if fixed or (ctr is not None and ctr != ik[0]):
+                raise TranslateError("loop body not understood: %r" % q[:40])
+            ctr = ik[0]
+            if val is None:
+                pre += ik[1]
+            else:
+                post += ik[1]
+            continue
+        m = re.match(r"^%s\s*local\s*\(\s*\)\s*=\s*(.+)$" % elem, q)
+        if m and val is None:
+            val = m.group(1)
+            continue
+        raise TranslateError("loop body not understood: %r" % q[:50])
+    if val is None:
+        raise TranslateError("no assignment in the loop")
     val = re.sub(r"static_cast\s*<[^>]*>", "", val)
-    if ctr is None:  # pair->local() = index++
-        m = re.search(r"\b(\w+)\s*\+\+", val)
-        if not m:
-            raise TranslateError("no counter")
-        ctr, step = m.group(1), 1
-        val = val.replace(m.group(0), " " + ctr + " ")
+    m = re.search(r"\b(\w+)\s*\+\+", val)       # pair->local() = index++
+    if m:
+        if fixed or (ctr is not None and ctr != m.group(1)):
+            raise TranslateError("assigned expression not understood")
+        ctr, post = m.group(1), post + 1
+        val = val.replace(m.group(0), " " + ctr + " ", 1)
+    if ctr is None:
+        raise TranslateError("no counter")
     if ctr not in counters:
         raise TranslateError("counter %s not declared" % ctr)
-    val = re.sub(r"\b%s\b" % ctr, " index ", val)
-    return "some { start := %d, step := %d, value := %s }" % (counters[ctr], step, canon_i(val, "index", grid(index=range(0, 6))))
+    val = re.sub(r"\b%s\b" % ctr, " (index+%d) " % pre if pre else " index ", val)
+    return "some { start := %d, step := %d, value := %s }" % (counters[ctr], pre + post, canon_i(val, "index", grid(index=range(0, 6))))
 
 
 NULLPTR = r"(?:0|nullptr|NULL|static_cast\s*<[^>]*>\s*\(\s*(?:0|nullptr)\s*\))"
@@ -911,6 +990,173 @@ def parse_stmt_list(s):
         out += stmt()
 
 
+# ---- the loop bodies of merge(): statement lists -> decision trees, compared SEMANTICALLY with the canonical trees ----
+# A tree is ("acts", [MAct...]) | ("ite", condAST, then, else) | ("unknown",).  Reading rules (each one sound by itself):
+#   * `continue` cuts the rest of the body off; statements behind an `if` are distributed into both branches;
+#   * a boolean local (`const bool x = <pure condition>`, also `auto`, brace/paren initialiser) is bound to the AST of its
+#     initialiser AT ITS DECLARATION and inlined where it is used (it cannot be assigned again: an assignment is an unknown
+#     statement; shadowing an already bound name is unknown);
+#   * `const auto& o = *old` / `auto a = *added` name the entry under an iterator: `o.` reads like `old->`; using such a
+#     name after that iterator was erased is unknown;
+#   * a condition written behind actions is hoisted in front of them only if it does not read an iterator that one of these
+#     actions has moved (`push_back` moves nothing; bound locals were evaluated before);
+#   * `c ? x : y` inside a statement = `if(c) stmt[x] else stmt[y]`;
+#   * anything else is ("unknown",).
+# The resulting tree is evaluated for every assignment of its atoms; if it performs the canonical tree's action list for
+# every assignment (inside the property's quantifier, see CMPGRID) the canonical tree is emitted, otherwise the tree as written.
+class UnknownStmt(Exception):
+    pass
+
+
+OLD_READS = {"g1", "oldDeleted", "cmp12", "cmp21"}
+ADDED_READS = {"g2", "cmp12", "cmp21"}
+
+
+def ast_vars(e):
+    if e[0] in ("ivar", "bvar"):
+        return {e[1]}
+    res = set()
+    for x in e[1:]:
+        if isinstance(x, tuple):
+            res |= ast_vars(x)
+    return res
+
+
+def top_level_ternary(t):
+    """`PRE ( C ? A : B ) POST` (the innermost bracket around the first `?`, or the whole text) -> (PRE, C, A, B, POST) | None"""
+    q = t.find("?")
+    if q < 0:
+        return None
+    depth, i = 0, q - 1
+    while i >= 0:
+        if t[i] == ")":
+            depth += 1
+        elif t[i] == "(":
+            if depth == 0:
+                break
+            depth -= 1
+        i -= 1
+    if i >= 0:
+        j = match_close(t, i, "(", ")")
+        pre, inner, post = t[:i + 1], t[i + 1:j], t[j:]
+        q -= i + 1
+    else:
+        pre, inner, post = "", t, ""
+    depth, nest = 0, 0
+    for k in range(q + 1, len(inner)):
+        ch = inner[k]
+        if ch == "(":
+            depth += 1
+        elif ch == ")":
+            depth -= 1
+        elif ch == "?" and depth == 0:
+            nest += 1
+        elif ch == ":" and depth == 0 and inner[k - 1:k + 2].count(":") == 1:
+            if nest == 0:
+                return pre, inner[:q], inner[q + 1:k], inner[k + 1:], post
+            nest -= 1
+    return None
+
+
+def strip_parens(t):
+    """redundant parentheses around an iterator or a dereferenced iterator: `((*old))` -> `(*old)`, `(old).x` -> `old.x`"""
+    prev = None
+    while prev != t:
+        prev = t
+        t = re.sub(r"\(\s*\(\s*(\*?\s*\w+)\s*\)\s*\)", r"(\1)", t)
+        t = re.sub(r"^\s*\(\s*(\w+)\s*\)\s*\.", r"\1.", t)
+    return t.strip()
+
+
+CANON_TREES = None
+
+
+def canon_trees():
+    global CANON_TREES
+    if CANON_TREES is None:
+        before, dele = parse_b(CANON_BEFORE), ("bvar", "oldDeleted")
+        CANON_TREES = {
+            (True, True): ("ite", dele, ("acts", [".eraseOld"]),
+                           ("ite", before, ("acts", [".pushOld", ".eraseOld"]), ("acts", [".pushAdded", ".eraseAdded"]))),
+            (True, False): ("ite", ("not", dele), ("acts", [".pushOld", ".eraseOld"]), ("acts", [".eraseOld"])),
+            (False, True): ("acts", [".pushAdded", ".eraseAdded"]),
+        }
+    return CANON_TREES
+
+
+def tree_grid(need_old, need_added):
+    """assignments of the atoms a loop body may read: only entries under iterators the loop guard proved valid.  Equal keys
+    are outside the quantifier only between two LIVE entries: a DELETED old entry may meet its re-added key."""
+    if need_old and need_added:
+        g = [dict(e, oldDeleted=False) for e in CMPGRID]
+        g += [dict(e, oldDeleted=True) for e in grid(g1=range(0, 3), g2=range(0, 3), cmp12=(False, True), cmp21=(False, True))
+              if not (e["cmp12"] and e["cmp21"])]
+        return g
+    if need_old:
+        return grid(g1=range(0, 3), oldDeleted=(False, True))
+    if need_added:
+        return grid(g2=range(0, 3))
+    return [dict()]
+
+
+def run_tree(t, env):
+    while t[0] == "ite":
+        t = t[2] if ev(t[1], env) else t[3]
+    if t[0] == "unknown":
+        raise UnknownStmt()
+    return tuple(t[1])
+
+
+def has_unknown(t):
+    return t[0] == "unknown" or (t[0] == "ite" and (has_unknown(t[2]) or has_unknown(t[3])))
+
+
+def same_tree(t, c, g):
+    if has_unknown(t):
+        return False
+    try:
+        return all(run_tree(t, env) == run_tree(c, env) for env in g)
+    except (KeyError, ZeroDivisionError, UnknownStmt):
+        return False
+
+
+def lean_cond(e):
+    vs = ast_vars(e)
+    if vs and vs <= {"g1", "g2", "cmp12", "cmp21"} and same_on_grid(e, parse_b(CANON_BEFORE), CMPGRID):
+        return lean(parse_b(CANON_BEFORE))
+    if vs == {"oldDeleted"}:
+        g = grid(oldDeleted=(False, True))
+        if same_on_grid(e, ("bvar", "oldDeleted"), g):
+            return "(.var .oldDeleted)"
+        if same_on_grid(e, ("not", ("bvar", "oldDeleted")), g):
+            return "(.not (.var .oldDeleted))"
+    return lean(e)
+
+
+def lean_tree(t):
+    if t[0] == "unknown":
+        return ".unknown"
+    if t[0] == "acts":
+        return "(.acts [%s])" % ", ".join(t[1])
+    return "(.ite %s %s %s)" % (lean_cond(t[1]), lean_tree(t[2]), lean_tree(t[3]))
+
+
+def merge_names(block_statements):
+    """declarations in front of the loops -> names of the two iterators, their ends and the temporary list; rest"""
+    names, rest = {}, []
+    for n, st in enumerate(block_statements):
+        d = re.match(r"^(?:const\s+)?(?:auto|typename\s+[\w:<>, ]+|[\w:<>, ]+?)\s+(\w+)\s*(?:=\s*|\{\s*|\(\s*)(localIndices_|newIndices_)\s*\.\s*(begin|end)\s*\(\s*\)\s*[\}\)]?$", st)
+        if d:
+            names[(d.group(2), d.group(3))] = d.group(1)
+            continue
+        d = re.match(r"^ArrayList\s*<[^>]*>\s+(\w+)(?:\s*\{\s*\}|\s*=\s*ArrayList\s*<[^>]*>\s*(?:\(\s*\)|\{\s*\}))?$", st)
+        if d:
+            names["temp"] = d.group(1)
+            continue
+        return names, block_statements[n:]
+    return names, rest
+
+
 def merge_prog_of(mb):
     """the `else if` block of merge() -> Lean list of MLoop"""
     m = re.match(r"^\s*if\s*\(", mb)
@@ -927,74 +1173,134 @@ def merge_prog_of(mb):
     e2 = match_close(mb, k2, "{", "}")
     if mb[e2 + 1:].strip():
         raise TranslateError("statements behind the else-if block")
-    block = mb[k2 + 1:e2]
-    names = {}
+    names, sts = merge_names(split_statements(mb[k2 + 1:e2]))
+    try:
+        OLD, ADDED = names[("localIndices_", "begin")], names[("newIndices_", "begin")]
+        TEMP = names["temp"]
+    except KeyError as ex:
+        raise TranslateError("declaration not found: %s" % (ex,))
+    if len({OLD, ADDED, TEMP}) != 3:
+        raise TranslateError("names are not distinct")
+    # the end of a list: the named end iterator or `list.end()` itself
+    EO = r"(?:%s)" % "|".join(filter(None, [names.get(("localIndices_", "end")), r"localIndices_\s*\.\s*end\s*\(\s*\)"]))
+    EA = r"(?:%s)" % "|".join(filter(None, [names.get(("newIndices_", "end")), r"newIndices_\s*\.\s*end\s*\(\s*\)"]))
+    reserved = {OLD, ADDED, TEMP, "localIndices_", "newIndices_"} | {v for v in names.values()}
+    OBJ = {"old": r"(?:\b%s\b|\(\s*\*\s*%s\s*\))" % (OLD, OLD), "added": r"(?:\b%s\b|\(\s*\*\s*%s\s*\))" % (ADDED, ADDED)}
+    STATE = r"%s\s*(?:->|\.)\s*local\s*\(\s*\)\s*\.\s*state\s*\(\s*\)" % OBJ["old"]
+
+    def guard_atom(c):
+        c = c.strip()
+        for (x, end, which) in ((OLD, EO, "old"), (ADDED, EA, "added")):
+            if re.match(r"^(?:%s\s*!=\s*%s|%s\s*!=\s*%s|!\s*\(\s*%s\s*==\s*%s\s*\)|!\s*\(\s*%s\s*==\s*%s\s*\))$"
+                        % (x, end, end, x, x, end, end, x), c):
+                return which
+        raise TranslateError("loop condition not understood: %r" % c)
+
+    def subst_alias(t, aliases, dirty):
+        for name, which in aliases.items():
+            if re.search(r"\b%s\b" % name, t):
+                if which in dirty:
+                    raise UnknownStmt()
+                it = OLD if which == "old" else ADDED
+                t = re.sub(r"\b%s\s*\." % name, it + "->", t)
+                t = re.sub(r"\b%s\b(?!\s*->)" % name, "*" + it, t)
+        return t
+
+    def cond_ast(t, locs, aliases, dirty):
+        t = subst_alias(t, aliases, dirty)
+        t = re.sub(r"%s\s*==\s*DELETED|DELETED\s*==\s*%s|%s\s*!=\s*VALID|VALID\s*!=\s*%s" % ((STATE,) * 4), " oldDeleted ", t)
+        t = re.sub(r"%s\s*!=\s*DELETED|DELETED\s*!=\s*%s|%s\s*==\s*VALID|VALID\s*==\s*%s" % ((STATE,) * 4), " (!oldDeleted) ", t)
+        t = norm_cmp(t, OBJ["old"], OBJ["added"])
+        direct = ast_vars(parse_b(t, {n: ("tt",) for n in locs}))
+        if ("old" in dirty and direct & OLD_READS) or ("added" in dirty and direct & ADDED_READS):
+            raise UnknownStmt()      # reads an entry behind an iterator that was moved on this path
+        return parse_b(t, locs)
+
+    def simple(t, aliases, dirty):
+        t = strip_parens(subst_alias(t, aliases, dirty))
+        for (rx, act) in ((r"^%s\s*\.\s*(?:push_back|emplace_back)\s*\(\s*\*\s*%s\s*\)$" % (TEMP, OLD), ".pushOld"),
+                          (r"^%s\s*\.\s*(?:push_back|emplace_back)\s*\(\s*\*\s*%s\s*\)$" % (TEMP, ADDED), ".pushAdded"),
+                          (r"^%s\s*\.\s*eraseToHere\s*\(\s*\)$" % OLD, ".eraseOld"),
+                          (r"^%s\s*\.\s*eraseToHere\s*\(\s*\)$" % ADDED, ".eraseAdded")):
+            if re.match(rx, t):
+                return act
+        return None
+
+    BOOL_DECL = re.compile(r"^(?:const\s+)?(?:bool|auto)\s+(?:const\s+)?(\w+)\s*(?:=\s*(.+)|\{(.+)\}|\((.+)\))$")
+    ALIAS_DECL = re.compile(r"^(?:const\s+)?(?:auto|typename\s+[\w:<>, ]+|[\w:<>, ]+?)\s*(?:const\s*)?&{0,2}\s*(\w+)\s*(?:=\s*|\{\s*|\(\s*)\*\s*(\w+)\s*[\}\)]?$")
+
+    def build(sts, acts, locs, aliases, dirty):
+        acts, dirty = list(acts), set(dirty)
+        try:
+            for n, x in enumerate(sts):
+                if x[0] == "if":
+                    c = cond_ast(x[1], locs, aliases, dirty)
+                    rest = sts[n + 1:]
+                    return ("ite", c, build(x[2] + rest, acts, locs, aliases, dirty), build(x[3] + rest, acts, locs, aliases, dirty))
+                t = x[1]
+                if t == "continue":
+                    break
+                tern = top_level_ternary(t)
+                if tern:
+                    pre, c, a, b, post = tern
+                    return build([("if", c, [("simple", pre + a + post)], [("simple", pre + b + post)])] + sts[n + 1:],
+                                 acts, locs, aliases, dirty)
+                a = simple(t, aliases, dirty)
+                if a is not None:
+                    acts.append(a)
+                    if a == ".eraseOld":
+                        dirty.add("old")
+                    elif a == ".eraseAdded":
+                        dirty.add("added")
+                    continue
+                d = ALIAS_DECL.match(t)
+                if d and d.group(2) in (OLD, ADDED):
+                    if d.group(1) in reserved or d.group(1) in locs or d.group(1) in aliases:
+                        raise UnknownStmt()
+                    which = "old" if d.group(2) == OLD else "added"
+                    if which in dirty:
+                        raise UnknownStmt()
+                    aliases = dict(aliases, **{d.group(1): which})
+                    continue
+                d = BOOL_DECL.match(t)
+                if d:
+                    if d.group(1) in reserved or d.group(1) in locs or d.group(1) in aliases:
+                        raise UnknownStmt()  # shadowing: the reading would confuse two variables
+                    init = next(g for g in d.groups()[1:] if g is not None)
+                    locs = dict(locs, **{d.group(1): cond_ast(init, locs, aliases, dirty)})
+                    continue
+                raise UnknownStmt()
+        except (UnknownStmt, TranslateError):
+            return ("unknown",)
+        return ("acts", acts)
+
     loops = []
     done = False
-    for st in split_statements(block):
+    for st in sts:
         if done:
             raise TranslateError("statement behind the final assignment")
-        d = re.match(r"^(?:const\s+)?(?:auto|typename\s+[\w:<>, ]+|[\w:<>, ]+?)\s+(\w+)\s*=\s*(localIndices_|newIndices_)\s*\.\s*(begin|end)\s*\(\s*\)$", st)
-        if d and not loops:
-            names[(d.group(2), d.group(3))] = d.group(1)
-            continue
-        d = re.match(r"^ArrayList\s*<[^>]*>\s+(\w+)$", st)
-        if d and not loops:
-            names["temp"] = d.group(1)
-            continue
+        head = None
         if st.startswith("while"):
-            OLD, ADDED = names[("localIndices_", "begin")], names[("newIndices_", "begin")]
-            EO, EA, TEMP = names[("localIndices_", "end")], names[("newIndices_", "end")], names["temp"]
             i = st.index("(")
             j = match_close(st, i, "(", ")")
-            need_old = need_added = False
-            for c in st[i + 1:j].split("&&"):
-                c = c.strip()
-                if re.match(r"^(?:%s\s*!=\s*%s|%s\s*!=\s*%s)$" % (OLD, EO, EO, OLD), c):
-                    need_old = True
-                elif re.match(r"^(?:%s\s*!=\s*%s|%s\s*!=\s*%s)$" % (ADDED, EA, EA, ADDED), c):
-                    need_added = True
-                else:
-                    raise TranslateError("loop condition not understood: %r" % c)
-            body = parse_stmt_list(st[j + 1:].strip())
-
-            def simple(t):
-                if re.match(r"^%s\s*\.\s*push_back\s*\(\s*\*\s*%s\s*\)$" % (TEMP, OLD), t):
-                    return ".pushOld"
-                if re.match(r"^%s\s*\.\s*push_back\s*\(\s*\*\s*%s\s*\)$" % (TEMP, ADDED), t):
-                    return ".pushAdded"
-                if re.match(r"^%s\s*\.\s*eraseToHere\s*\(\s*\)$" % OLD, t):
-                    return ".eraseOld"
-                if re.match(r"^%s\s*\.\s*eraseToHere\s*\(\s*\)$" % ADDED, t):
-                    return ".eraseAdded"
-                return None
-
-            def cond(t):
-                d = re.match(r"^\s*(?:%s\s*->|\(\s*\*\s*%s\s*\)\s*\.)\s*local\s*\(\s*\)\s*\.\s*state\s*\(\s*\)\s*(==|!=)\s*DELETED\s*$" % (OLD, OLD), t)
-                if d:
-                    return "(.var .oldDeleted)" if d.group(1) == "==" else "(.not (.var .oldDeleted))"
-                return canon_b(norm_cmp(t, OLD, ADDED), CANON_BEFORE, CMPGRID)
-
-            def norm(sts):
-                acts = []
-                for n, x in enumerate(sts):
-                    if x[0] == "simple":
-                        if x[1] == "continue":
-                            break
-                        a = simple(x[1])
-                        if a is None:
-                            return ".unknown"
-                        acts.append(a)
-                    else:
-                        if acts:
-                            return ".unknown"   # a condition evaluated after an action: outside the grammar
-                        rest = sts[n + 1:]
-                        return "(.ite %s %s %s)" % (cond(x[1]), norm(x[2] + rest), norm(x[3] + rest))
-                return "(.acts [%s])" % ", ".join(acts)
-
-            loops.append("{ needOld := %s, needAdded := %s, body := %s }" % (lean_bool(need_old), lean_bool(need_added), norm(body)))
+            head = st[i + 1:j]
+        elif st.startswith("for"):
+            i = st.index("(")
+            j = match_close(st, i, "(", ")")
+            parts = st[i + 1:j].split(";")
+            if len(parts) != 3 or parts[0].strip() or parts[2].strip():
+                raise TranslateError("for loop with initialiser or increment: %r" % st[i + 1:j])
+            head = parts[1]
+        if head is not None:
+            need = {guard_atom(c) for c in head.split("&&")}
+            need_old, need_added = "old" in need, "added" in need
+            tree = build(parse_stmt_list(st[j + 1:].strip()), [], {}, {}, set())
+            canon = canon_trees().get((need_old, need_added))
+            if canon is not None and same_tree(tree, canon, tree_grid(need_old, need_added)):
+                tree = canon
+            loops.append("{ needOld := %s, needAdded := %s, body := %s }" % (lean_bool(need_old), lean_bool(need_added), lean_tree(tree)))
             continue
-        if re.match(r"^localIndices_\s*=\s*(?:std\s*::\s*move\s*\(\s*)?%s\s*\)?$" % names.get("temp", "tempPairs"), st):
+        if re.match(r"^localIndices_\s*=\s*(?:std\s*::\s*move\s*\(\s*)?%s\s*\)?$" % TEMP, st):
             done = True
             continue
         raise TranslateError("statement not understood: %r" % st[:50])
@@ -1224,8 +1530,22 @@ def translate(repo):
         bs = bodies(sb, r"\bcompare\s*(?=\()")
         return canon_b(return_expr(bs[0][2]), "false", [dict()])
 
+    CANON_PROG = ("[{ needOld := true, needAdded := true, body := (.ite (.var .oldDeleted) (.acts [.eraseOld]) (.ite %s (.acts [.pushOld, .eraseOld]) (.acts [.pushAdded, .eraseAdded]))) },\n   "
+                  "{ needOld := true, needAdded := false, body := (.ite (.not (.var .oldDeleted)) (.acts [.pushOld, .eraseOld]) (.acts [.eraseOld])) },\n   "
+                  "{ needOld := false, needAdded := true, body := (.acts [.pushAdded, .eraseAdded]) }]" % lean(parse_b(CANON_BEFORE)))
+    try:
+        prog_canonical = merge_prog_of(method("merge", 0)) == CANON_PROG
+    except (TranslateError, IndexError, KeyError, AttributeError, ValueError, StopIteration):
+        prog_canonical = False
+
+    def implied(fn, canonical):
+        """round-two pieces that are parts of merge()'s loop bodies (the comparison, the two DELETED tests): when the whole
+        program was read and is equivalent to the canonical program, the piece is what the canonical program contains
+        (wherever and however the source spells it); otherwise the piece's own textual reader decides as before"""
+        return (lambda: canonical) if prog_canonical else fn
+
     o.piece("sortFunctor", "BE", sort_functor, lean(parse_b(CANON_BEFORE)))
-    o.piece("mergeTakesOld", "BE", merge_cmp, lean(parse_b(CANON_BEFORE)))
+    o.piece("mergeTakesOld", "BE", implied(merge_cmp, lean(parse_b(CANON_BEFORE))), lean(parse_b(CANON_BEFORE)))
     o.piece("plocalCompare", "BE", plocal_cmp, lean(parse_b("a1<a2")))
     o.piece("genericCompare", "BE", generic_cmp, ".ff")
 
@@ -1270,8 +1590,8 @@ def translate(repo):
     o.piece("mergeCopies", "BE", lambda: canon_b(norm_merge(merge_conds()[0]), "nOld==0", MG), lean(parse_b("nOld==0")))
     o.piece("mergeLoops", "BE", lambda: canon_b(norm_merge(merge_conds()[1]), "nNew>0 || del", MG),
             lean(parse_b("nNew>0 || del")))
-    o.piece("mergeLoop1Drops", "BE", lambda: deleted_tests()[0], "(.var .oldDeleted)")
-    o.piece("mergeLoop2Keeps", "BE", lambda: deleted_tests()[1], "(.not (.var .oldDeleted))")
+    o.piece("mergeLoop1Drops", "BE", implied(lambda: deleted_tests()[0], "(.var .oldDeleted)"), "(.var .oldDeleted)")
+    o.piece("mergeLoop2Keeps", "BE", implied(lambda: deleted_tests()[1], "(.not (.var .oldDeleted))"), "(.not (.var .oldDeleted))")
 
     # ---- the five searches
     o.piece("search_atConst", "Search", lambda: lean_search(search_of(method("at", 1, const=True))), canonical_search("at"))
@@ -1309,10 +1629,7 @@ def translate(repo):
            "[(.loc, (.param 0))]", "[]")
     o.loud("lindexSetState", "List (Member × Init)", lambda: writes_of(lsrc, r"\bLocalIndex\s*::\s*setState\s*(?=\()"),
            "[(.state, (.param 0))]", "[]")
-    o.loud("mergeProg", "List MLoop", lambda: merge_prog_of(method("merge", 0)),
-           "[{ needOld := true, needAdded := true, body := (.ite (.var .oldDeleted) (.acts [.eraseOld]) (.ite %s (.acts [.pushOld, .eraseOld]) (.acts [.pushAdded, .eraseAdded]))) },\n   "
-           "{ needOld := true, needAdded := false, body := (.ite (.not (.var .oldDeleted)) (.acts [.pushOld, .eraseOld]) (.acts [.eraseOld])) },\n   "
-           "{ needOld := false, needAdded := true, body := (.acts [.pushAdded, .eraseAdded]) }]" % lean(parse_b(CANON_BEFORE)),
+    o.loud("mergeProg", "List MLoop", lambda: merge_prog_of(method("merge", 0)), CANON_PROG,
            "[{ needOld := false, needAdded := false, body := .unknown }]")
     o.loud("setCtor", "Option SetCtor", lambda: set_ctor_of(src), "some { state := .ground, seq := 0, del := false }", "none")
     o.loud("mergeCopyBranch", "List CopyAct", lambda: merge_copy_branch_of(method("merge", 0)),
